@@ -9,7 +9,8 @@ use lexical_parse_float::shared;
 
 /// Is (mant, exp) a valid biased IEEE encoding for a float with `ms` mantissa bits and infinite power `inf`?
 fn valid_biased(fp: &ExtendedFloat80, ms: i32, inf: i32) -> bool {
-    fp.exp >= 0 && fp.exp <= inf && fp.mant < (1u64 << ms) && (fp.exp != inf || fp.mant == 0)
+    // a subnormal that rounds up to the smallest normal is returned as (1 << ms, 1): the hidden bit coincides with the exponent bit
+    fp.exp >= 0 && fp.exp <= inf && (fp.mant < (1u64 << ms) || (fp.mant == (1u64 << ms) && fp.exp == 1)) && (fp.exp != inf || fp.mant == 0)
 }
 
 /// Error-marked extended float: exponent shifted by INVALID_FP, mantissa normalised (top bit set).
@@ -110,6 +111,7 @@ crate::harnesses! {
         cover(c.exp < 0);
     }
 
+    /// @tier thorough
     /// Band: for w < 2^16 and -10 <= q <= 10 a non-error compute_float::<f32> result IS the round-to-nearest-even of w * 10^q.
     /// @prop C01 C19
     /// @feat default radix_format
@@ -129,6 +131,7 @@ crate::harnesses! {
         cover(fp.exp > 0);
     }
 
+    /// @tier thorough
     /// lemire(): with a truncated mantissa the result is conclusive only if mantissa and mantissa+1 agree.
     /// @prop C01
     /// @feat default radix_format
